@@ -33,6 +33,12 @@ def run(tier, seed, replay=None):
     work = common.new_workdir("c06")
     n = 120 if tier == "quick" else 1500
     def mk(rng, i):
+        if i % 6 == 5:
+            # rules of different leading-context lengths whose actions and constraints read other items (@n): after the
+            # ANY padding every slot reference must still name the rule's own item (AdjustSlotRefsForPreAnys)
+            prog = gen.gen_expr_program(rng)
+            prog.c06_refs = True
+            return prog
         prog = gen.gen_match_program(rng, size="small" if i % 3 else "medium")
         if i % 2 == 1:
             gen.add_pass_splits(rng, prog)     # the pass continues in an include file, whose lines are numbered from 1 again
@@ -40,7 +46,7 @@ def run(tier, seed, replay=None):
     cases = harness.gen_cases(seed, 6, n, mk)
     results = harness.compile_cases(build, work, cases)
     acc, rej = harness.split_accepted(results)
-    outs = harness.drive(acc, ["c02", "c06"])
+    outs = harness.drive(acc, ["c02", "c06", "c01"])
     stats = collections.Counter()
     distinct = set()
     samples = []
@@ -72,6 +78,16 @@ def run(tier, seed, replay=None):
                             "case": r["name"], "checker_line": pl,
                             "broken": "hypothesis hcert of Grc.Prec.start_state_fires_iff (FSM certificate) rejected for this pass",
                         }, no_failing_input=("cex=none" in pl))
+        if getattr(r["prog"], "c06_refs", False):
+            stats["slot_reference_programs"] += 1
+            bad = [l for l in o["c01"] if not (l.startswith("ok") or " ok " in l)]
+            if bad:
+                d = harness.save_case(rep, r, r["name"] + "-refs")
+                rep.violation(r["name"] + "-refs", {
+                    "case": r["name"], "checker_lines": bad[:6],
+                    "meaning": "in a pass whose rules have different leading-context lengths, the action or constraint code of the named rule reads a slot other than the item the rule text names (slot references not shifted with the ANY padding)",
+                    "rerun": "cd %s && printf 'font out.ttf\nir p.ir.json\nc01\n' | %s" % (d, common.grcv_path()),
+                })
         if len(samples) < 3:
             samples.append({"case": r["name"], "gdl": r["prog"].gdl(), "c06": o["c06"]})
     rep.coverage.update({
@@ -80,6 +96,7 @@ def run(tier, seed, replay=None):
         "traces_validated_against_impl": stats["c06_passes"], "disagreements_checked": stats["c06_fail"],
         "evaluations": stats["c06_passes"], "distinct_nontrivial": len(distinct),
         "pre_context_distribution": dict(pre_hist),
+        "slot_reference_programs": stats["slot_reference_programs"],
         "rule": "generated passes mixing rule lengths, pre-context lengths 0-3 (incl. explicit ANY), insertions, deletions; one evaluation = one pass whose header (min/maxRulePreContext, startStates, ruleSortKeys, rulePreContext, ruleMap order) satisfied the hypotheses of the Lean theorems; distinct = distinct (rules,minPre,maxPre,keys)",
         "samples": samples, "exhaustive": False,
     })
